@@ -85,7 +85,12 @@ func TestC02_KnownProbes(t *testing.T) {
 				if err != nil {
 					t.Fatalf("probe search: %v", err)
 				}
-				if want["p"] != (len(got) == 1) {
+				// the clip finding returns an object that should not match, all others lose one that does
+				hit := want["p"] && len(got) == 0
+				if p.finding == findingClipSimple {
+					hit = !want["p"] && len(got) == 1
+				}
+				if hit {
 					reproduced[p.finding] = append(reproduced[p.finding], fmt.Sprintf("%s/%s/%s", p.name, level, pred))
 					c.Label("reproduced:" + p.name)
 					if firstReplay[p.finding] == nil {
